@@ -52,6 +52,7 @@ def closeVal (s : S) : Val := if s.lastErr then .fatal else .retryable
 inductive Act
   | seeDone (i : Nat) | enqueue (i : Nat) | recheck (i : Nat) | read (i : Nat) | takeBack (i : Nat)
   | wlTakeWrite (i : Nat) | wlTakeReject (i : Nat) | wlTakeSkip (i : Nat) | wlWriteFail (i : Nat)
+  | wlBodyFail (i : Nat) | wlFail
   | wlSeeDone | wlSetErr | wlClose | wlTakeAll | wlDrainOne (i : Nat) | wlDrainEnd
   | close | rdSetErr | finish (i : Nat) (v : Val) | timer (i : Nat)
 
@@ -80,8 +81,19 @@ inductive Step (recheckVal : S → Val) : S → Act → S → Prop
       Step recheckVal s (.wlTakeReject i) (upd s i fun q => { res q .retryable with inQ := false })
   | wlTakeSkip (s i) : s.wl = .running → (s.r i).inQ = true → (s.r i).pc = .got →
       Step recheckVal s (.wlTakeSkip i) (upd s i fun q => { q with inQ := false })
+  /- `writeRequest`: the HEADERS cannot be written (or flushed): the stream is taken out of the table
+     again, the request is resolved with the error, `runWriteLoop` returns it -/
   | wlWriteFail (s i) : s.wl = .running → (s.r i).inQ = true →
       Step recheckVal s (.wlWriteFail i) { upd s i (fun q => { res q .fatal with inQ := false }) with wl := .stopping }
+  /- `writeRequest`: the HEADERS went out, a DATA write of `sendPending` fails: the request stays in the
+     table, is resolved with the error, `runWriteLoop` returns it -/
+  | wlBodyFail (s i) : s.wl = .running → (s.r i).inQ = true →
+      Step recheckVal s (.wlBodyFail i)
+        { upd s i (fun q => { res { q with inQ := false, inTable := true, written := true } .fatal with inQ := false }) with wl := .stopping }
+  /- any other way `runWriteLoop` ends by itself: a frame of `out` (RST_STREAM, WINDOW_UPDATE, a SETTINGS or
+     PING acknowledgement), the DATA of `flushPending` or a PING cannot be written, pings go unanswered, a
+     recovered panic -/
+  | wlFail (s) : s.wl = .running → Step recheckVal s .wlFail { s with wl := .stopping }
   /- teardown: `runWriteLoop` returns, `setLastErr`, `Close`, `takeAllReqs`, drain of `in` -/
   | wlSeeDone (s) : s.wl = .running → s.done = true → Step recheckVal s .wlSeeDone { s with wl := .stopping }
   | wlSetErr (s) : s.wl = .stopping → Step recheckVal s .wlSetErr { s with wl := .erred, lastErr := true }
